@@ -79,10 +79,38 @@ def confirm(src: Path, n: str, name: str) -> int:
     dst = SEEDED / name
     dst.mkdir(parents=True, exist_ok=True)
     shutil.copy(patch, dst / 'patch.diff')
-    shutil.copy(demo, dst / 'demo.py')
-    for extra in src.glob('*'):
-        if extra.is_dir() and extra.name in demo.read_text():
-            shutil.copytree(extra, dst / extra.name, dirs_exist_ok=True)
+    # helpers the demonstration imports (stub modules, shared harness files) travel with it and
+    # the sub-agent's absolute output path is rewritten to the stored location
+    demo_text = demo.read_text()
+    helpers = []
+    texts = [demo_text]
+    cands = [e for e in src.glob('*')
+             if not re.fullmatch(r'(patch\d*\.diff|demo\d*\.py|meta\.json|__pycache__)', e.name)]
+    grew = True
+    while grew:             # transitive: a helper may import the stub directory
+        grew = False
+        for extra in cands:
+            if extra not in helpers and any(extra.stem in t for t in texts):
+                helpers.append(extra)
+                if extra.is_file() and extra.suffix == '.py':
+                    texts.append(extra.read_text())
+                grew = True
+    for extra in helpers:
+        if extra.is_dir():
+            shutil.copytree(extra, dst / extra.name, dirs_exist_ok=True,
+                            ignore=shutil.ignore_patterns('__pycache__', '*.pyc'))
+        else:
+            shutil.copy(extra, dst / extra.name)
+    (dst / 'demo.py').write_text(demo_text)
+    for f in [dst / 'demo.py'] + [x for x in dst.rglob('*.py')]:
+        t = f.read_text()
+        if str(src) in t:
+            f.write_text(t.replace(str(src), str(dst)))
+    rc, out = sh(['/venv/bin/python', str(dst / 'demo.py')], cwd=REPO, timeout=600,
+                 env=dict(os.environ, PYTHONDONTWRITEBYTECODE='1'))
+    if rc != 0:
+        print('stored demo does not exit 0 on the clean tree:', out[-600:])
+        return 1
     meta = {
         'name': name,
         'property': meta_all['property'],
